@@ -5,7 +5,7 @@
 From Coq Require Import ZArith List Bool.
 Import ListNotations.
 From Verif Require Import CallConv.FuncDetailModel CallConv.Abi CallConv.AbiLink CallConv.AbiProofs
-  CallConv.ShuffleModel CallConv.ShuffleProofs CallConv.ShuffleFindings CallConv.ShuffleBytesModel CallConv.ShuffleBytesProofs CallConv.SolverModel CallConv.SolverProofs CallConv.SolverFullModel CallConv.SolverFullProofs CallConv.SolverFullProofs2 CallConv.SolverFullProofs3 CallConv.SolverFullProofs4 CallConv.SolverFullProofs5 CallConv.SolverFullProofs6 CallConv.SolverFullProofs7 CallConv.SolverFullProofs8 CallConv.DecodeModel CallConv.DecodeSpec CallConv.DecodeProofs CallConv.DecodeSpecVec CallConv.DecodeVecProofs CallConv.DecodeComplete CallConv.AbiVariadic CallConv.AbiWfProofs.
+  CallConv.ShuffleModel CallConv.ShuffleProofs CallConv.ShuffleFindings CallConv.ShuffleBytesModel CallConv.ShuffleBytesProofs CallConv.SolverModel CallConv.SolverProofs CallConv.SolverFullModel CallConv.SolverFullProofs CallConv.SolverFullProofs2 CallConv.SolverFullProofs3 CallConv.SolverFullProofs4 CallConv.SolverFullProofs5 CallConv.SolverFullProofs6 CallConv.SolverFullProofs7 CallConv.SolverFullProofs8 CallConv.SolverFullProofs9 CallConv.DecodeModel CallConv.DecodeSpec CallConv.DecodeProofs CallConv.DecodeSpecVec CallConv.DecodeVecProofs CallConv.DecodeComplete CallConv.AbiVariadic CallConv.AbiWfProofs.
 From VerifGen Require C06Tables.
 Local Open Scope Z_scope.
 
@@ -340,6 +340,32 @@ Theorem C06_full_solver_validates_example :
   (exists ms, fsolve FA64 ex_wgp ex_wvec ex_mixed = SOk ms /\ validate (map fmove_of ex_mixed) (fallowed_locs ex_wgp ex_wvec) ms = true).
 Proof. exact ex_mixed_validates_both. Qed.
 Print Assumptions C06_full_solver_validates_example.
+(* Round 7.  The lift to BYTE-level semantics: the byte-level validator accepts every sequence the solver model emits, hence every successful
+   run is correct under the machine semantics with byte-addressed little-endian stack areas, from every initial byte state, and a byte outside
+   every stored range keeps its value (all targets but 32-bit x86, inputs whose slots are pairwise disjoint). *)
+Theorem C06_full_solver_validates_bytes : forall a wgp wvec vs0 ms, fwf_inputb wgp wvec vs0 = true -> farch_okb a vs0 = true -> a <> FX86 ->
+  slots_okb vs0 = true -> fsolve a wgp wvec vs0 = SOk ms ->
+  validate_bytes (map fmove_of vs0) (fallowed_locs wgp wvec) ms = true.
+Proof. exact fsolve_validates_bytes. Qed.
+Print Assumptions C06_full_solver_validates_bytes.
+Theorem C06_full_solver_correct_bytes : forall a wgp wvec vs0 ms, fwf_inputb wgp wvec vs0 = true -> farch_okb a vs0 = true -> a <> FX86 ->
+  slots_okb vs0 = true -> fsolve a wgp wvec vs0 = SOk ms ->
+  forall (b0 : bstate) v0, In v0 vs0 ->
+  dst_ok (fmove_of v0) (bread b0 (f_cur v0) (8 * f_csz v0)) (bread (bexec ms b0) (f_out v0) (8 * f_osz v0)).
+Proof. exact fsolve_correct_bytes. Qed.
+Print Assumptions C06_full_solver_correct_bytes.
+Theorem C06_full_solver_frame_bytes : forall a wgp wvec vs0 ms, fwf_inputb wgp wvec vs0 = true -> farch_okb a vs0 = true -> a <> FX86 ->
+  slots_okb vs0 = true -> fsolve a wgp wvec vs0 = SOk ms ->
+  forall b0 ar x, (forall o bits, In (ar, o, bits) (store_accesses ms) -> ~ (o <= x < o + bits / 8)) ->
+  b_mem (bexec ms b0) ar x = b_mem b0 ar x.
+Proof. exact fsolve_frame_bytes. Qed.
+Print Assumptions C06_full_solver_frame_bytes.
+Theorem C06_full_solver_correct_bytes_example : forall a, a = FX64 \/ a = FA64 -> forall ms, fsolve a ex_wgp ex_wvec ex_mixed = SOk ms ->
+  validate_bytes (map fmove_of ex_mixed) (fallowed_locs ex_wgp ex_wvec) ms = true /\
+  forall (b0 : bstate) v0, In v0 ex_mixed ->
+    dst_ok (fmove_of v0) (bread b0 (f_cur v0) (8 * f_csz v0)) (bread (bexec ms b0) (f_out v0) (8 * f_osz v0)).
+Proof. exact ex_mixed_correct_bytes. Qed.
+Print Assumptions C06_full_solver_correct_bytes_example.
 Theorem C06_full_solver_example_avx :
   fwf_inputb [0;6;7] [0;1;2;3] ex_avx = true /\ farch_okb FX64A ex_avx = true /\ farch_okb FX64 ex_avx = false /\
   fsolve FX64A [0;6;7] [0;1;2;3] ex_avx =
